@@ -958,6 +958,16 @@ func runEpisode(prog *progSpec) (res epResult) {
 						ep.quiescentEvent(blocked, "quiescent", true)
 						break
 					}
+					if len(ps) > 1 {
+						// several removers wait at their tick (one may be a superseded one that a hold schedule kept back: it
+						// leaves as soon as it runs): every one of them makes its pass before the next look
+						for _, p := range ps {
+							res.Steps++
+							g.releaseProc(p)
+							g.settleFast()
+						}
+						continue
+					}
 				} else if ok {
 					time.Sleep(time.Duration(200+2*prog.Cfg.ExpiryUs) * time.Microsecond)
 					g.settleFast()
